@@ -117,10 +117,13 @@ type Exec struct {
 	prefers     []*Term
 	pcKind      []byte
 	randStreams [][]*Term
+	randLens    []*Term
 	absMemo     map[int]*Term
 	traceClass  string
 	valuesMeta  map[*Arr]*valuesSnap
 	urlMeta     map[*Arr][]*StrV
+	jsVals      []*jsVal
+	jsGlobals   []jsReg
 }
 
 type Observation struct {
